@@ -31,11 +31,11 @@ META = {
                   "gfa2.to_gfa1.ToGFA1._to_gfa1_a", "segment GFA1ToGFA2/GFA2ToGFA1", "path ToGFA2._to_gfa2_a", "ordered ToGFA1._to_gfa1_a",
                   "CapturedPath", "header VersionConversion", "Collections.unused_name"],
     "bounds": "GFA1 documents: 3 segments (lengths from {6,10}), link/containment with one of 4 (quick) / 8 (thorough) mostly asymmetric CIGARs x 4 orientation pairs x {named, unnamed} x optional path (linear along / against the link, circular, single segment) x tags; converted text must parse at vlevel 3 and validate, E intervals per oracle, and conversion back must give an equivalent document",
-    "timeout": {"quick": 400, "thorough": 1200}, "parts": {"quick": 16, "thorough": 16}},
+    "timeout": {"quick": 400, "thorough": 900}, "parts": {"quick": 16, "thorough": 16}},
   "h_roundtrip_gfa2": {"kind": "G",
     "functions": ["Gfa.to_gfa1/to_gfa1_s/to_gfa2_s", "gfa2.to_gfa1.ToGFA1._to_gfa1_a", "ordered ToGFA1", "records without counterpart"],
     "bounds": "GFA2 documents: 2-3 segments, E line from 9 interval patterns (dovetail x4, containment x4 incl. at the container's end/start, internal) x orientations x 3 alignments, plus F, G, U, custom record, O paths (segments only / through the edge / the edge alone forwards and backwards / backwards edge then segment): dropped or refused, never mistranslated; converted text valid GFA1 at vlevel 3; back-conversion equivalent",
-    "timeout": {"quick": 400, "thorough": 1200}, "parts": {"quick": 14, "thorough": 14}},
+    "timeout": {"quick": 400, "thorough": 900}, "parts": {"quick": 14, "thorough": 14}},
  },
 }
 
